@@ -36,6 +36,9 @@ type c01Case struct {
 	Sched    *maporder.Schedule `json:"sched"`
 	Options  world.Options      `json:"options,omitempty"`
 	Rendered map[string]string  `json:"rendered,omitempty"`
+	// ReadAfterErrors: the trees are also read after a Process that returned
+	// errors ("read access to whatever trees or errors come back").
+	ReadAfterErrors bool `json:"read_after_errors,omitempty"`
 }
 
 func (c *c01Case) texts() map[string]string {
@@ -227,6 +230,7 @@ func (c01Driver) Generate(t *tape.Tape, tier string) core.Case {
 		}
 	}
 	c.Ops = append(c.Ops, world.Op{Op: "process"}, world.Op{Op: "query"})
+	c.ReadAfterErrors = t.Sub("readmode").Chance(1, 2)
 	c.Sched = maporder.Random(t.Sub("sched"))
 	ot := t.Sub("options")
 	c.Options.StoreUses = ot.Chance(1, 4)
@@ -265,7 +269,7 @@ func (c01Driver) Run(cc core.Case) core.Outcome {
 			disk["lib/"+n] = t
 		}
 	}
-	spec := &world.Spec{Texts: texts, Disk: disk, Faults: c.Faults, Sticky: c.Sticky, Path: c.Path, Sched: c.Sched, Options: c.Options, Ops: c.Ops}
+	spec := &world.Spec{Texts: texts, Disk: disk, Faults: c.Faults, Sticky: c.Sticky, Path: c.Path, Sched: c.Sched, Options: c.Options, Ops: c.Ops, QueryAfterErrors: c.ReadAfterErrors}
 	res := world.Exec(spec)
 	o.Ticks = res.Ticks
 	addRecorder(&o, res.Rec)
